@@ -12,7 +12,7 @@ From Coq Require Import ZArith QArith List Bool Lia Permutation Arith.
 From VL Require Import Prelude.PyDict Model.GetNBest Model.Convert Model.Cardinal Model.Condorcet Proofs.Dict_proofs Proofs.GetNBest_proofs
      Proofs.QOrd Proofs.HA_proofs Proofs.Condorcet_proofs Proofs.Shape_proofs Proofs.Smith_proofs Proofs.Minimax_proofs
      Proofs.Schulze_proofs Proofs.Kemeny_proofs Proofs.RankedPairs_proofs Proofs.Cardinal_proofs Proofs.MJ_proofs Proofs.JR_proofs
-     Prelude.Sx Prelude.GDict Model.Bucklin Proofs.Bucklin_proofs.
+     Prelude.Sx Prelude.GDict Model.Bucklin Proofs.Bucklin_proofs Model.Star.
 Import ListNotations.
 Close Scope Q_scope.
 Close Scope Z_scope.
@@ -682,3 +682,149 @@ Proof.
   destruct (prep fx split votes) as [|bw vs] eqn:Ep; [discriminate|]. rewrite <- Ep.
   unfold reconcile. destruct (existsb _ _); [discriminate|]. intros [= <-]. apply pa_core_shape. lia.
 Qed.
+
+(* ---- _decouple_equal_rankings introduces no candidate: every ballot it writes (either splicing loop) names only
+   candidates of the ballot it comes from *)
+Lemma gadd_keys_in {K} (keqb : K -> K -> bool) (d : list (K * Q)) k x k' :
+  In k' (map fst (gadd keqb d k x)) -> k' = k \/ In k' (map fst d).
+Proof.
+  induction d as [|[k0 v] d IH]; simpl; [intros [<-|[]]; left; reflexivity|].
+  destruct (keqb k k0); simpl; [intros H; right; exact H|]. intros [<-|H]; [right; left; reflexivity|].
+  destruct (IH H) as [->|H']; [left; reflexivity|right; right; exact H'].
+Qed.
+
+Lemma picks_in {X} (l : list X) x rest : In (x, rest) (picks l) -> In x l /\ incl rest l.
+Proof.
+  revert x rest. induction l as [|a l IH]; intros x rest; simpl; [tauto|]. intros [H|H].
+  - injection H as <- <-. split; [left; reflexivity|intros y Hy; right; exact Hy].
+  - apply in_map_iff in H. destruct H as ([y r'] & Heq & Hin). simpl in Heq. injection Heq as <- <-.
+    destruct (IH _ _ Hin) as [H1 H2]. split; [right; exact H1|]. intros z [<-|Hz]; [left; reflexivity|right; apply H2, Hz].
+Qed.
+
+Lemma perms_n_in n : forall (l p : list C), In p (perms_n n l) -> incl p l.
+Proof.
+  induction n as [|n IH]; intros l p; simpl; [intros [<-|[]]; intros x []|].
+  intros H. apply in_flat_map in H. destruct H as ([x rest] & Hpk & Hin). apply in_map_iff in Hin.
+  destruct Hin as (q & <- & Hq). simpl. destruct (picks_in _ _ _ Hpk) as [Hx Hr].
+  intros y [<-|Hy]; [exact Hx|]. apply Hr. exact (IH _ _ Hq y Hy).
+Qed.
+
+Lemma product_perms_in (S : list C) : forall (sr : list (nat * list C)) parts,
+  (forall il, In il sr -> incl (snd il) S) ->
+  In parts (product (map (fun il : nat * list C => perms (snd il)) sr)) -> forall p, In p parts -> incl p S.
+Proof.
+  induction sr as [|il sr IH]; intros parts Hs; simpl; [intros [<-|[]] p []|].
+  intros H. apply in_flat_map in H. destruct H as (p0 & Hp0 & Hin). apply in_map_iff in Hin. destruct Hin as (ps & <- & Hps).
+  intros p [<-|Hp].
+  - intros x Hx. apply (Hs il (or_introl eq_refl)). exact (perms_n_in _ _ _ Hp0 x Hx).
+  - apply (IH ps); [intros il' Hil; apply Hs; right; exact Hil|exact Hps|exact Hp].
+Qed.
+
+Lemma shared_ranks_in : forall (r : ranked) i il, In il (shared_ranks_from i r) -> incl (snd il) (flatten r).
+Proof.
+  induction r as [|[c|l] r IH]; intros i il; simpl; [tauto| |].
+  - intros H x Hx. right. exact (IH _ _ H x Hx).
+  - intros [<-|H] x Hx; simpl in *; apply in_or_app; [left; exact Hx|right; exact (IH _ _ H x Hx)].
+Qed.
+
+Lemma flatten_app (a b : ranked) : flatten (a ++ b) = flatten a ++ flatten b.
+Proof. unfold flatten. apply flat_map_app. Qed.
+Lemma flatten_plain_items (l : list C) : flatten (map IP l) = l.
+Proof. unfold flatten. induction l as [|x l IH]; simpl; [reflexivity|]. f_equal. exact IH. Qed.
+Lemma flatten_firstn k (v : ranked) : incl (flatten (firstn k v)) (flatten v).
+Proof. intros x Hx. rewrite <- (firstn_skipn k v), flatten_app. apply in_or_app. left. exact Hx. Qed.
+Lemma flatten_skipn k (v : ranked) : incl (flatten (skipn k v)) (flatten v).
+Proof. intros x Hx. rewrite <- (firstn_skipn k v), flatten_app. apply in_or_app. right. exact Hx. Qed.
+
+Lemma splice_in (S : list C) v pos part : incl (flatten v) S -> incl part S -> incl (flatten (splice v pos part)) S.
+Proof.
+  intros Hv Hp x Hx. unfold splice in Hx. rewrite !flatten_app, flatten_plain_items in Hx.
+  apply in_app_or in Hx. destruct Hx as [Hx|Hx]; [apply Hv, (flatten_firstn pos), Hx|].
+  apply in_app_or in Hx. destruct Hx as [Hx|Hx]; [apply Hp, Hx|apply Hv, (flatten_skipn (Datatypes.S pos)), Hx].
+Qed.
+
+Lemma splice_all_in (S : list C) fx : forall idx parts v off, incl (flatten v) S -> (forall p, In p parts -> incl p S) ->
+  incl (flatten (splice_all fx v off idx parts)) S.
+Proof.
+  induction idx as [|i idx IH]; intros parts v off Hv Hp; simpl; [exact Hv|].
+  destruct parts as [|p parts]; [exact Hv|].
+  apply IH; [apply splice_in; [exact Hv|apply Hp; left; reflexivity]|intros q Hq; apply Hp; right; exact Hq].
+Qed.
+
+Lemma variants_in fx (r v : ranked) : In v (variants fx r) -> incl (flatten v) (flatten r).
+Proof.
+  unfold variants. intros H. apply in_map_iff in H. destruct H as (parts & <- & Hparts).
+  apply splice_all_in; [intros x Hx; exact Hx|].
+  apply (product_perms_in (flatten r) (shared_ranks_from 0 r) parts); [|exact Hparts].
+  intros il Hil. exact (shared_ranks_in r 0 il Hil).
+Qed.
+
+Lemma decouple_cands fx votes : incl (pa_cands (decouple fx votes)) (pa_cands votes).
+Proof.
+  set (S := pa_cands votes).
+  set (ok := fun d : list (ranked * Q) => forall k, In k (map fst d) -> incl (flatten k) S).
+  assert (Hstep : forall new bw, In bw votes -> ok new -> ok (decouple_step fx new bw)).
+  { intros new bw Hbw Hnew. unfold decouple_step. destruct (has_shared (fst bw)); [|exact Hnew].
+    set (share := (snd bw / inject_Z (Z.of_nat (length (variants fx (fst bw)))))%Q).
+    assert (Hfold : forall vs acc, (forall v, In v vs -> incl (flatten v) S) -> ok acc ->
+               ok (fold_left (fun acc v => gadd ranked_eqb acc v share) vs acc)).
+    { induction vs as [|v vs IH]; intros acc Hvs Hacc; simpl; [exact Hacc|].
+      apply IH; [intros w Hw; apply Hvs; right; exact Hw|]. intros k Hk. apply gadd_keys_in in Hk.
+      destruct Hk as [->|Hk]; [apply Hvs; left; reflexivity|apply Hacc, Hk]. }
+    apply Hfold.
+    - intros v Hv x Hx. unfold S, pa_cands. apply in_flat_map. exists bw. split; [exact Hbw|exact (variants_in fx _ _ Hv x Hx)].
+    - intros k Hk. apply Hnew. unfold rdel in Hk. apply in_map_iff in Hk. destruct Hk as (kv & <- & Hin). apply filter_In in Hin.
+      apply in_map. tauto. }
+  assert (Hfold : forall vs new, incl vs votes -> ok new -> ok (fold_left (decouple_step fx) vs new)).
+  { induction vs as [|bw vs IH]; intros new Hi Hnew; simpl; [exact Hnew|].
+    apply IH; [intros x Hx; apply Hi; right; exact Hx|apply Hstep; [apply Hi; left; reflexivity|exact Hnew]]. }
+  assert (Hfin : ok (decouple fx votes)).
+  { unfold decouple. apply Hfold; [intros x Hx; exact Hx|]. intros k Hk x Hx. apply in_map_iff in Hk. destruct Hk as (bw & <- & Hbw).
+    unfold S, pa_cands. apply in_flat_map. exists bw. split; assumption. }
+  intros x Hx. unfold pa_cands in Hx. apply in_flat_map in Hx. destruct Hx as (bw & Hbw & Hx).
+  apply (Hfin (fst bw)); [apply in_map, Hbw|exact Hx].
+Qed.
+
+Lemma pa_result_ok_incl cands cands' n r : incl cands cands' -> pa_result_ok cands n r -> pa_result_ok cands' n r.
+Proof.
+  intros Hc [H|(el & -> & He & Hi & Hl)]; [left; eapply nform_incl; eassumption|].
+  right. exists el. repeat split; try assumption. intros x Hx. apply Hc, Hi, Hx.
+Qed.
+
+(* Bucklin / Oklahoma / any coefficients, with or without decoupling of shared ranks, either splicing loop:
+   over the candidates of the ORIGINAL ballots *)
+Theorem pa_shape fx coef split votes n r : pa_eval fx coef split votes n = PA_ok r ->
+  (length r <= n)%nat /\ sel_shape (pa_cands votes) (length r) r /\ (length r < n -> ties_of r = []).
+Proof.
+  intros H. apply pa_result_ok_shape. apply (pa_result_ok_incl (pa_cands (prep fx split votes))); [|exact (pa_eval_shape fx coef split votes n r H)].
+  unfold prep. destruct split; [apply decouple_cands|intros x Hx; exact Hx].
+Qed.
+
+(* the seats are NOT always filled (known finding C08-preference-addition-short): three candidates stand, two seats
+   are asked for, one winner is returned - after the last preference round nobody else has passed the quota *)
+Definition pa_short_votes : list (ranked * Q) := [([IP 1%positive], 5 # 1); ([IP 2%positive; IP 3%positive], 1 # 1)]%Q.
+(* ... and the recorded witness of the finding, with a shared rank *)
+Definition pa_short_votes' : list (ranked * Q) := [([IP 1%positive], 5 # 1); ([IS [1%positive; 3%positive]; IP 2%positive], 1 # 1)]%Q.
+
+Theorem pa_full_refuted :
+  canon_set (pa_cands pa_short_votes) = [1; 2; 3]%positive /\
+  bucklin false pa_short_votes 2 = PA_ok [Cand 1%positive] /\ oklahoma false pa_short_votes 2 = PA_ok [Cand 1%positive] /\
+  bucklin true pa_short_votes 2 = PA_ok [Cand 1%positive] /\
+  canon_set (pa_cands pa_short_votes') = [1; 2; 3]%positive /\
+  bucklin false pa_short_votes' 2 = PA_ok [Cand 1%positive] /\ oklahoma false pa_short_votes' 2 = PA_ok [Cand 1%positive].
+Proof. vm_compute. repeat split; reflexivity. Qed.
+
+(* ================================================================ STAR (default configuration) *)
+(* the answer is Schulze over the pairwise counts of the run-off members: well-shaped whenever those counts name at
+   least n candidates ... *)
+Theorem star_nform votes order n r agg : score_to_simple star_cfg votes = inl agg ->
+  let pv := star_pairwise votes (star_members (get_n_best Qle_bool agg (n + 1))) in
+  1 <= n <= length (candidates pv) -> star votes order n = inl r -> nform (candidates pv) n r.
+Proof.
+  intros Ha pv Hn. unfold star. rewrite Ha. intros [= <-]. apply schulze_nform, Hn.
+Qed.
+
+(* ... which they need not (known finding C08-star-short): no ballot separates the two finalists *)
+Definition star_short_votes : sprofile := [([(1%positive, 5 # 1); (2%positive, 5 # 1); (3%positive, 3 # 1)]%Q, 2%Z)].
+Theorem star_full_refuted : score_cands star_short_votes = [1; 2; 3]%positive /\ star_auto star_short_votes 1 = inl [].
+Proof. vm_compute. split; reflexivity. Qed.
